@@ -193,3 +193,24 @@ harness! {
         assert!(a.is_empty() == all_zero, "C19 is_empty iff all counters are zero");
     }
 }
+
+// clone(): independent copy (bounded: 2x2 table of u8 counters, arbitrary contents)
+harness! {
+    #[kani::unwind(8)]
+    fn c19_cms_clone_independent() {
+        let bh = SymBH::new();
+        let mut a = CountMinSketch::<u8, u8, SymBH>::with_params_and_hasher(2, 2, bh);
+        let mut t = [0u8; 4];
+        let mut i = 0;
+        while i < 4 { let v: u8 = any(); assume(v < 200); a.table[i] = v; t[i] = v; i += 1; }
+        let mut b = a.clone();
+        let x: u8 = any();
+        assume(x < 3);
+        assert!(a.query_point(&x) == b.query_point(&x), "C19 a clone answers identically at the time of cloning");
+        let which: bool = any();
+        if which { a.add(&x); } else { b.add(&x); }
+        let untouched = if which { &b } else { &a };
+        let mut i = 0;
+        while i < 4 { assert!(untouched.table[i] == t[i], "C19 clone and original do not share state"); i += 1; }
+    }
+}
